@@ -287,6 +287,11 @@ impl DirEntry {
     pub(crate) fn serialize(&self, fat_type: FatType) -> [u8; OnDiskDirEntry::LEN] {
         let mut data = [0u8; OnDiskDirEntry::LEN];
         data[0..11].copy_from_slice(&self.name.contents);
+        if data[0] == OnDiskDirEntry::DELETED_MARKER {
+            // A name that really starts with 0xE5 is stored with 0x05, as
+            // 0xE5 in the first byte marks the entry as deleted.
+            data[0] = OnDiskDirEntry::KANJI_LEAD_BYTE;
+        }
         data[11] = self.attributes.0;
         // 12: Reserved. Must be set to zero
         // 13: CrtTimeTenth, not supported, set to zero
